@@ -2,7 +2,7 @@
     list-encoded operands.  Evaluated inside Coq (vm_compute) and, for volume,
     through extraction (Extract.v). *)
 From Coq Require Import ZArith List.
-From FastorV Require Import Base.Scalar Base.Mem Model.Cfg Model.Matmul Model.TMatmul Model.Expr Model.ExprInt Model.Reduce Base.Shape Model.Views Model.RandomViews Model.Layout Model.Permute Model.Einsum.
+From FastorV Require Import Base.Scalar Base.Mem Model.Cfg Model.Matmul Model.TMatmul Model.Expr Model.ExprInt Model.Reduce Base.Shape Model.Views Model.RandomViews Model.Layout Model.Permute Model.Einsum Model.Network.
 Import ListNotations.
 
 Definition run_matmul_Z (c : cfg) (t : ety) (M K N : nat) (a b : list Z) : list Z :=
@@ -77,3 +77,13 @@ Definition run_einsum (I J dimsA dimsB : list nat) (A B : list Z) : list nat * l
   let od := out_dims I J dimsA dimsB in
   (od, map (einsum_general (S:=ZS) I J dimsA dimsB (fun p => nth p A 0%Z) (fun p => nth p B 0%Z)) (seq 0 (prod od))).
 Definition run_classify (I J : list nat) : list bool := [is_mat_vec I J; is_vec_mat I J; is_mat_mat I J].
+
+Definition run_network3 (I0 I1 I2 d0 d1 d2 : list nat) (A B C : list Z) : list nat * (list nat * list Z) :=
+  let od := out_dims (I0 ++ I1) I2 (d0 ++ d1) d2 in
+  ([which_variant I0 I1 I2 d0 d1 d2], (od,
+   map (network3 (S:=ZS) I0 I1 I2 d0 d1 d2 (fun p => nth p A 0%Z) (fun p => nth p B 0%Z) (fun p => nth p C 0%Z)) (seq 0 (prod od)))).
+Definition run_triplet_costs := triplet_costs.
+Definition run_network4 (I0 I1 I2 I3 d0 d1 d2 d3 : list nat) (A B C D : list Z) : list nat * (list bool * list Z) :=
+  let od := out_dims (I0 ++ I1 ++ I2) I3 (d0 ++ d1 ++ d2) d3 in
+  let r := network4 (S:=ZS) I0 I1 I2 I3 d0 d1 d2 d3 (fun p => nth p A 0%Z) (fun p => nth p B 0%Z) (fun p => nth p C 0%Z) (fun p => nth p D 0%Z) in
+  (which_variant4 I0 I1 I2 I3 d0 d1 d2 d3 :: quartet_costs I0 I1 I2 I3 d0 d1 d2 d3, ([fst r; network4_accepts_all (S:=ZS) I0 I1 I2 I3 d0 d1 d2 d3 (fun p => nth p A 0%Z) (fun p => nth p B 0%Z) (fun p => nth p C 0%Z) (fun p => nth p D 0%Z)], if fst r then map (snd r) (seq 0 (prod od)) else [])).
